@@ -6,24 +6,31 @@
 (* returns under EVERY terminal/frame of the grid and collects the cases    *)
 (* where the result fails a clause of the property (none expected).         *)
 (*   originals 1..MaxO x 1..MaxO, terminals 1..MaxTC x 1..MaxTL,            *)
-(*   frames: default (0,-2) and (0,0) relative to every terminal, every     *)
-(*           absolute frame 1..MaxTC x 1..MaxTL (terminal fixed: absolute   *)
-(*           frames do not read it), plus mixed absolute/relative ones,     *)
+(*   frames: every absolute frame 1..MaxTC x 1..MaxTL, relative frames      *)
+(*           (0,-2), (0,0) under every terminal (FullTerms) or (0,-2),      *)
+(*           (0,0), (-3,-1) under nine boundary terminals, plus mixed       *)
+(*           absolute/relative ones,                                        *)
 (*   text family:  cell ratio in Ratios, or taken from the cell size,       *)
 (*   graphics family: cell size in Cells (none = fallback 1x2).             *)
 (***************************************************************************)
 EXTENDS Sizing, TLC, FiniteSets, Json
 
-CONSTANTS MaxO, MaxTC, MaxTL
+CONSTANTS MaxO, MaxTC, MaxTL, FullTerms
 
 Cells == {<<0, 0>>, <<1, 2>>, <<2, 3>>, <<3, 5>>}
 Ratios == {<<1, 4>>, <<1, 3>>, <<1, 2>>, <<3, 5>>, <<1, 1>>, <<2, 1>>}
 
-\* <<tc, tl, fc, fl>>
+\* <<tc, tl, fc, fl>>.  Absolute frames do not read the terminal (checked: `frameok`), so they
+\* are paired with one terminal.  FullTerms: relative frames under EVERY terminal 1..MaxTC x
+\* 1..MaxTL; otherwise under the boundary terminals below (the same combinations
+\* harness/drivers/c04.py replays into the real code in the quick tier).
+SomeTerms == {<<1, 1>>, <<2, 3>>, <<12, 8>>, <<5, 2>>, <<7, 5>>, <<3, 8>>, <<12, 1>>, <<1, 8>>, <<9, 4>>}
 TermFrames ==
-  {<<tc, tl, 0, -2>> : tc \in 1..MaxTC, tl \in 1..MaxTL}
-  \cup {<<tc, tl, 0, 0>> : tc \in 1..MaxTC, tl \in 1..MaxTL}
-  \cup {<<5, 4, fc, fl>> : fc \in 1..MaxTC, fl \in 1..MaxTL}
+  {<<5, 4, fc, fl>> : fc \in 1..MaxTC, fl \in 1..MaxTL}
+  \cup (IF FullTerms
+        THEN {<<tc, tl, 0, -2>> : tc \in 1..MaxTC, tl \in 1..MaxTL}
+             \cup {<<tc, tl, 0, 0>> : tc \in 1..MaxTC, tl \in 1..MaxTL}
+        ELSE {<<t[1], t[2], f[1], f[2]>> : t \in SomeTerms, f \in {<<0, -2>>, <<0, 0>>, <<-3, -1>>}})
   \cup {<<tc, tl, -1, 3>> : tc \in {1, 2, 7}, tl \in {1, 5}}
   \cup {<<tc, tl, 4, -1>> : tc \in {1, 9}, tl \in {1, 2, 6}}
 OneTermFrame == {<<5, 4, 0, -2>>}
